@@ -197,4 +197,8 @@ def _classify(rec, m, S, model_exp, obs, d0, label):
                         continue
                     rec.violation(QUIRK_KEYS[q], f'S={S}: {label}: {fmt(d0, 300)}')
                 return
+    e_all = View(m, S, False, model_exp, quirks=list(QUIRK_KEYS)).observe()
+    d_all = diff(e_all, obs)
+    if d_all is not None:
+        d0 = d_all       # the part of the difference that no known mechanism accounts for
     rec.violation('interference:' + norm_path(d0[0]), f'S={S} expand={model_exp}: {label} changed the observation: ' + fmt(d0))
